@@ -20,6 +20,9 @@ ALPH = {
     'W': ['a', 'b', ' ', '\n', '\t', '.'],
     'Q': ['a', 'u', 'b', 'r', "'", '"', ' '],
     'M': ['a', '\n', ' ', '\x1b[31m', '\x1b[0m', '<BLANKLINE>'],
+    # the wildcard as one token, so that wants with two markers and literal pieces between them
+    # ('...a...a', 'a...a...') are inside a 4-token bound under every flag setting
+    'E': ['a', ' ', '\n', '...'],
 }
 BITS = list(itertools.product([False, True], repeat=5))
 IDX = {b: i for i, b in enumerate(BITS)}
@@ -225,6 +228,6 @@ class E2ERelSpec(Spec):
 def specs(tier):
     if tier == 'thorough':
         return [RelSpec('W<=4x4', 'W', 4, 4), RelSpec('Q<=4x4', 'Q', 4, 4), RelSpec('M<=4x4', 'M', 4, 4),
-                E2ERelSpec()]
+                RelSpec('E<=5x6', 'E', 5, 6), E2ERelSpec()]
     return [RelSpec('W<=4x3', 'W', 4, 3), RelSpec('W<=3x4', 'W', 3, 4, only_new=(3, 3)),
-            RelSpec('Q<=3x3', 'Q', 3, 3), RelSpec('M<=3x3', 'M', 3, 3), E2ERelSpec()]
+            RelSpec('Q<=3x3', 'Q', 3, 3), RelSpec('M<=3x3', 'M', 3, 3), RelSpec('E<=3x5', 'E', 3, 5), E2ERelSpec()]
